@@ -739,6 +739,21 @@ def run(tier):
               'that no other process or thread writes to (pid and thread id '
               'evaluated per call), so the command reads the rendering of '
               'the candidate being checked (shared with C09.R6)', sub09)
+    # every leaf the reader hands out is a complete lexeme
+    from . import c08 as _c08
+
+    def _unterminated(chk, prog):
+        chk.rule('C07.R14', 'the reader makes no leaf of a string literal or '
+                 'quoted symbol that is still open at the end of the text '
+                 '(such a leaf is not a token: no rendering of it parses '
+                 'back to itself)')
+        sub = Check('C08', 'other', tier, [], [])
+        tab = _c08.extract_table(sub, prog)
+        m_, f_, cfg_, ex_, top_, states_, table_ = tab
+        _c08.rule_unterminated(chk, m_, f_, cfg_, top_, states_, table_,
+                               'C07.R14')
+
+    chk.guard(_unterminated, chk, prog)
     extra = None
     if tier == 'thorough':
         from .. import selftest
